@@ -6,7 +6,7 @@
 From Coq Require Import ZArith Reals Lra Psatz List Bool Lia ZifyBool.
 From PsdV Require Import Composite.Scalar Composite.Model Composite.Geometry Composite.Doc
   Composite.ProofsKernel Composite.ProofsGeometry Composite.ProofsBlend Composite.ProofsLaws Composite.ProofsDoc
-  Composite.ProofsViewport Composite.ProofsInsert.
+  Composite.ProofsLawsNS Composite.ProofsSim Composite.ProofsViewport Composite.ProofsInsert.
 Import ListNotations.
 
 (* ---- list plumbing of sample_runs *)
@@ -108,7 +108,7 @@ Definition null_leaf (e : elR) : Prop := exists cs fa B ko cl, e = LeafR cs 0 fa
 
 Lemma sim_nil_nulls (l : list elR) : Forall null_leaf l -> sim [] l.
 Proof.
-  induction 1 as [|e l (cs & fa & B & ko & cl & ->) Hl IH]; [constructor|]. apply sim_drop. exact IH.
+  induction 1 as [|e l (cs & fa & B & ko & cl & ->) Hl IH]; [apply sim_nil|]. apply sim_dropR; [apply nb_shape | exact IH].
 Qed.
 
 Lemma sample_layer_null vp x y k (L : layer) clips :
@@ -204,7 +204,7 @@ Proof.
     pose proof (sample_list_wf run vp x y k OK) as W. unfold sample_list in W.
     destruct (sample_runs vp x y k run) as [p q]. cbn [fst snd] in *.
     pose proof (sim_nil_nulls (p ++ q) (proj2 (Forall_app _ _ _) (conj N1 N2))) as S.
-    exact (proj1 sim_sound [] (p ++ q) S (Forall_nil _) W s s I I (peq_refl s)). }
+    exact (sim_sound_peq [] (p ++ q) S (Forall_nil _) W s s I I (peq_refl s)). }
   destruct (is_zero_rect (intersect vp bb)) eqn:Z.
   - (* the group misses the viewport altogether *)
     cbn [apply_list fold_left]. apply Null. apply (zero_intersect_not_inside vp bb x y Z Hin).
@@ -220,7 +220,7 @@ Proof.
       assert (S' : subrect vp' vp).
       { unfold vp'. apply subrect_intersect_l. exact Z. }
       assert (Hin' : inside vp' x y = true) by (unfold vp'; rewrite inside_intersect_l; assumption).
-      exact (proj1 sim_sound _ _ (sample_list_crop x y k run vp' vp S' Hin') W' Wd s s I I (peq_refl s)).
+      exact (sim_sound_peq _ _ (sample_list_crop x y k run vp' vp S' Hin') W' Wd s s I I (peq_refl s)).
     + (* outside the group's box: the group is a blank source, its contents are shape 0 here *)
       cbn [apply_list fold_left].
       eapply peq_trans; [apply (leaf_null_noop _ _ _ _ _ s I) | apply Null; reflexivity].
